@@ -38,14 +38,27 @@ type c18Point struct {
 
 // c18NonTime builds the non-time part P (may be nil) with its truth at the point.
 func c18NonTime(pt c18Point) (Expr, bool) {
+	// references are written plain or with a type qualifier (host::tag, value::field / ::integer)
+	qual := vfChoice(3)
 	hostEq := func() (Expr, bool) {
 		c := vfLower()
-		return &BinaryExpr{Op: EQ, LHS: &VarRef{Val: "host"}, RHS: &StringLiteral{Val: string([]byte{c})}}, pt.host == c
+		ref := &VarRef{Val: "host"}
+		if qual == 1 {
+			ref.Type = Tag
+		}
+		return &BinaryExpr{Op: EQ, LHS: ref, RHS: &StringLiteral{Val: string([]byte{c})}}, pt.host == c
 	}
 	valGt := func() (Expr, bool) {
 		d := vfDigit()
 		n := int64(d - '0')
-		return &BinaryExpr{Op: GT, LHS: &VarRef{Val: "value"}, RHS: &IntegerLiteral{Val: n}}, pt.value > n
+		ref := &VarRef{Val: "value"}
+		switch qual {
+		case 1:
+			ref.Type = AnyField
+		case 2:
+			ref.Type = Integer
+		}
+		return &BinaryExpr{Op: GT, LHS: ref, RHS: &IntegerLiteral{Val: n}}, pt.value > n
 	}
 	switch vfChoice(4) {
 	case 0:
@@ -64,7 +77,7 @@ func c18NonTime(pt c18Point) (Expr, bool) {
 }
 
 // c18TimeAtom builds one earlier time bound. form: 0 time on the left (lower case), 1 time on the right, 2 upper-case TIME
-func c18TimeAtom(form int) Expr {
+func c18TimeAtom(form int, paren bool) Expr {
 	op := c10CmpOp()
 	var bound Expr
 	if vfChoice(2) == 0 {
@@ -73,13 +86,35 @@ func c18TimeAtom(form int) Expr {
 	} else {
 		bound = &BinaryExpr{Op: SUB, LHS: &Call{Name: "now"}, RHS: &DurationLiteral{Val: 5 * time.Minute}}
 	}
+	var atom Expr
 	switch form {
 	case 1:
-		return &BinaryExpr{Op: op, LHS: bound, RHS: &VarRef{Val: "time"}}
+		atom = &BinaryExpr{Op: op, LHS: bound, RHS: &VarRef{Val: "time"}}
 	case 2:
-		return &BinaryExpr{Op: op, LHS: &VarRef{Val: "TIME"}, RHS: bound}
+		atom = &BinaryExpr{Op: op, LHS: &VarRef{Val: "TIME"}, RHS: bound}
+	default:
+		atom = &BinaryExpr{Op: op, LHS: &VarRef{Val: "time"}, RHS: bound}
 	}
-	return &BinaryExpr{Op: op, LHS: &VarRef{Val: "time"}, RHS: bound}
+	if paren {
+		return &ParenExpr{Expr: atom} // a bound alone in its own parentheses (the style query builders emit)
+	}
+	return atom
+}
+
+// c18Refs lists the non-time references of a condition as written (name and type qualifier), in order.
+func c18Refs(e Expr, out []VarRef) []VarRef {
+	switch e := e.(type) {
+	case *BinaryExpr:
+		out = c18Refs(e.LHS, out)
+		return c18Refs(e.RHS, out)
+	case *ParenExpr:
+		return c18Refs(e.Expr, out)
+	case *VarRef:
+		if !isTimeRef(e) {
+			out = append(out, *e)
+		}
+	}
+	return out
 }
 
 func c18Observe(sel *SelectStatement, a, b int64, pt c18Point, truthP bool, tag string) {
@@ -97,6 +132,18 @@ func c18Observe(sel *SelectStatement, a, b int64, pt c18Point, truthP bool, tag 
 	vfAssert(rest == truthP, "C18/non-time-part-is-kept-unchanged"+tag)
 }
 
+func c18SameRefs(a, b []VarRef) bool {
+	if len(a) != len(b) {
+		return false
+	}
+	for i := range a {
+		if a[i] != b[i] {
+			return false
+		}
+	}
+	return true
+}
+
 func vfH_C18_induction(tier int) {
 	pt := c18Point{host: vfLower(), value: vfInt64()}
 	p, truthP := c18NonTime(pt)
@@ -111,8 +158,9 @@ func vfH_C18_induction(tier int) {
 	}
 	nT := vfChoice(3)
 	cond := p
+	paren := nT > 0 && vfChoice(2) == 1
 	for i := 0; i < nT; i++ {
-		atom := c18TimeAtom(form)
+		atom := c18TimeAtom(form, paren)
 		if cond == nil {
 			cond = atom
 		} else if vfChoice(2) == 0 {
@@ -124,6 +172,7 @@ func vfH_C18_induction(tier int) {
 	if nT == 0 {
 		tag = ""
 	}
+	refsP := c18Refs(p, nil)
 	sel := &SelectStatement{Fields: Fields{{Expr: &VarRef{Val: "v"}}}, Sources: Sources{&Measurement{Name: "m"}}, Condition: cond, IsRawQuery: true}
 	vfNativeNote(func() string { return sel.String() })
 	w1 := c18Windows[vfChoice(len(c18Windows))]
@@ -135,6 +184,7 @@ func vfH_C18_induction(tier int) {
 		return
 	}
 	c18Observe(sel, a, b, pt, truthP, "/base"+tag)
+	vfAssert(c18SameRefs(c18Refs(sel.Condition, nil), refsP), "C18/base/non-time-references-are-kept-as-written"+tag)
 	size1 := c18Size(sel.Condition)
 	// step: from a member of K(P, a, b) to K(P, c, d)
 	w2 := c18Windows[[]int{3, 1, 0}[vfChoice(3)]]
@@ -145,6 +195,7 @@ func vfH_C18_induction(tier int) {
 		return
 	}
 	c18Observe(sel, c, d, pt, truthP, "/step"+tag)
+	vfAssert(c18SameRefs(c18Refs(sel.Condition, nil), refsP), "C18/step/non-time-references-are-kept-as-written"+tag)
 	vfAssert(c18Size(sel.Condition) == size1, "C18/step/condition-does-not-grow"+tag)
 	vfReach("C18_induction/ok")
 }
